@@ -111,13 +111,19 @@ type c28env struct {
 	// context error before writing anything when the context is already done, so such a conn-level
 	// call is not a command "sent" to the server and is not counted as an attempt.
 	refuse func() error
+	// refusedN counts calls refused because the context is done; a client that ignores the done context would
+	// retry without end, so beyond c28runaway such calls the connection answers a plain (non-retryable) error
+	// reply, which ends the client's loop, and the case is reported.
+	refusedN int
 }
+
+const c28runaway = 200
 
 func (e *c28env) reset(faultTag, script string, first func()) {
 	e.mu.Lock()
 	e.faultTag, e.script, e.first = faultTag, script, first
 	e.counts = map[string]int{}
-	e.faultN, e.delayN = 0, 0
+	e.faultN, e.delayN, e.refusedN = 0, 0, 0
 	e.movedTag, e.movedN = "", 0
 	e.mu.Unlock()
 }
@@ -169,6 +175,13 @@ func (e *c28env) user(argv []string) RedisResult {
 	tag := c28tag(argv)
 	if e.refuse != nil {
 		if err := e.refuse(); err != nil {
+			e.mu.Lock()
+			e.refusedN++
+			n := e.refusedN
+			e.mu.Unlock()
+			if n > c28runaway {
+				return NewResult(strmsg(typeSimpleErr, "ERR c28 harness: runaway retries stopped"), nil)
+			}
 			return NewErrorResult(err)
 		}
 	}
@@ -408,7 +421,12 @@ func c28run(r *vrun.Run, c *c28case, pool map[string]*c28sys) {
 	e.mu.Lock()
 	counts := e.counts
 	faultN, delayN := e.faultN, e.delayN
+	refusedN := e.refusedN
 	e.mu.Unlock()
+	if refusedN > c28runaway {
+		r.Violate(c.Mode+" "+c.API+": the client keeps calling the connection after the context is done", fmt.Sprintf("%d calls were refused with the context error and each was retried; case %s", refusedN, c28json(c)), c)
+		return
+	}
 
 	cluster := c.Mode == "cluster"
 	all := true
